@@ -26,12 +26,6 @@ KEEP_RECV = ['g_firing', 'id', 'IDLE', 'CONNECTING', 'CONNECTED', 'protocol', 'f
              'onPublish', 'onDisconnection', 'onMqttConnectionMade', 'pdu', 'tr_closes']
 
 
-@spec
-def no_new_fired() -> bool:
-    """no Deferred that existed before has fired during this step"""
-    return forall(lambda d: implies(old(is_bool(obj_at(d).d_fired) and not obj_at(d).d_fired), unchanged(obj_at(d).d_fired)))
-
-
 @contract('mqtt.pdu.PUBLISH.decode', props=['C16', 'C06'])
 def _(self: Ref['mqtt.pdu.PUBLISH'], packet: Bytes):
     """arbitrary bytes: either an exception (truncated / corrupt / invalid UTF-8), or fields that all lie inside the
@@ -39,9 +33,16 @@ def _(self: Ref['mqtt.pdu.PUBLISH'], packet: Bytes):
     requires(is_unset(self.deferred) and is_unset(self.alarm))
     raises(Exception)
     modifies(self.encoded, self.dup, self.qos, self.retain, self.topic, self.msgId, self.payload)
+    B = body(packet)
+    tl = B[0] * 256 + B[1]
     ensures(decoded_publish(self))
     ensures(self.encoded == packet)
     ensures(2 + len(utf8(self.topic)) + (2 if self.qos > 0 else 0) <= len(body(packet)))
+    # every field is the one the bytes carry (faithful delivery, C06)
+    ensures(self.qos == (packet[0] // 2) % 4 and self.dup == ((packet[0] // 8) % 2 == 1) and self.retain == (packet[0] % 2 == 1))
+    ensures(len(B) >= 2 and tl + 2 <= len(B) and utf8(self.topic) == B[2:2 + tl] and self.topic == utf8dec(B[2:2 + tl]))
+    ensures(implies(self.qos > 0, self.msgId == B[tl + 2] * 256 + B[tl + 3] and self.payload == B[tl + 4:]))
+    ensures(implies(self.qos == 0, self.payload == B[tl + 2:]))
 
 
 @contract('mqtt.client.base.MQTTBaseProtocol._handleCONNACK', props=['C16', 'C14', 'C04', 'C03'], classes=PROFILES)
@@ -54,6 +55,18 @@ def _(self: Ref['mqtt.client.pubsubs.MQTTProtocol'], packet: Bytes):
     # no Deferred fired, no state change (a corrupt one may at most abort the connection)
     ensures(implies(not old(self.state == self.CONNECTING), out(self) == old(out(self)) and cb_unchanged() and unchanged(self.state)
                     and fired_stay_fired() and no_new_fired()))
+    B = body(packet)
+    acc = self.state == self.CONNECTING
+    na = as_int(self.transport.tr_aborts)
+    d = as_ref(self.connReq.deferred)
+    # a CONNACK while connecting decides the handshake: return code 0 connects, every other one fails the Deferred
+    ensures(implies(acc and len(B) >= 2, self.transport.tr_aborts == na and d.d_fired and is_none(self.connReq)))
+    ensures(implies(acc and len(B) >= 2 and B[1] == 0, self.state == self.CONNECTED))
+    ensures(implies(acc and len(B) >= 2 and B[1] == 0, d.d_ok))
+    ensures(implies(acc and len(B) >= 2 and B[1] == 0, d.d_val == (B[0] % 2 == 1)))
+    ensures(implies(acc and len(B) >= 2 and B[1] != 0, self.state == self.IDLE))
+    ensures(implies(acc and len(B) >= 2 and B[1] != 0, not d.d_ok))
+    ensures(implies(acc and len(B) >= 2 and B[1] != 0, out(self) == old(out(self))))
 
 
 @contract('mqtt.client.base.MQTTBaseProtocol._handlePINGRESP', props=['C16', 'C14', 'C03', 'C15'], classes=PROFILES)
@@ -66,6 +79,12 @@ def _(self: Ref['mqtt.client.pubsubs.MQTTProtocol'], packet: Bytes):
     # no Deferred fired, no state change (a corrupt one may at most abort the connection)
     ensures(implies(not old(self.state == self.CONNECTED), out(self) == old(out(self)) and cb_unchanged() and unchanged(self.state)
                     and fired_stay_fired() and no_new_fired()))
+    acc = self.state == self.CONNECTED
+    al = as_ref(self._pingReq.alarm)
+    had = not is_none(self._pingReq.alarm)
+    # an answered PINGREQ: the deadline is cancelled and forgotten
+    ensures(implies(acc, is_none(self._pingReq.alarm) and out(self) == old(out(self)) and unchanged(self.transport.tr_aborts)))
+    ensures(implies(acc and had, is_int(al.t_status) and al.t_status == 1))
 
 
 @contract('mqtt.client.base.MQTTBaseProtocol._handleSUBACK', props=['C16', 'C14', 'C03', 'C07'], classes=PROFILES)
@@ -78,6 +97,19 @@ def _(self: Ref['mqtt.client.pubsubs.MQTTProtocol'], packet: Bytes):
     # no Deferred fired, no state change (a corrupt one may at most abort the connection)
     ensures(implies(not old(self.state == self.CONNECTED and not has_class(self, 'mqtt.client.publisher.MQTTProtocol')), out(self) == old(out(self)) and cb_unchanged() and unchanged(self.state)
                     and fired_stay_fired() and no_new_fired()))
+    B = body(packet)
+    mid = B[0] * 256 + B[1]
+    acc = self.state == self.CONNECTED and not has_class(self, 'mqtt.client.publisher.MQTTProtocol')
+    na = as_int(self.transport.tr_aborts)
+    hit = contains(S(self), mid)
+    req = S(self)[mid]
+    ensures(implies(acc and len(B) >= 2, self.transport.tr_aborts == na and out(self) == old(out(self))))
+    ensures(implies(acc and len(B) >= 2 and hit, not contains(S(self), mid) and req.deferred.d_fired and req.deferred.d_ok
+                    and is_list_ib(req.deferred.d_val) and len(as_list_ib(req.deferred.d_val)) == len(B) - 2
+                    and forall(lambda i: implies(0 <= i and i < len(B) - 2,
+                                                 as_list_ib(req.deferred.d_val)[i][0] == B[i + 2] % 128
+                                                 and as_list_ib(req.deferred.d_val)[i][1] == (B[i + 2] >= 128)))))
+    ensures(implies(acc and len(B) >= 2 and not hit, no_new_fired()))
 
 
 @contract('mqtt.client.base.MQTTBaseProtocol._handleUNSUBACK', props=['C16', 'C14', 'C03', 'C07'], classes=PROFILES)
@@ -90,6 +122,16 @@ def _(self: Ref['mqtt.client.pubsubs.MQTTProtocol'], packet: Bytes):
     # no Deferred fired, no state change (a corrupt one may at most abort the connection)
     ensures(implies(not old(self.state == self.CONNECTED and not has_class(self, 'mqtt.client.publisher.MQTTProtocol')), out(self) == old(out(self)) and cb_unchanged() and unchanged(self.state)
                     and fired_stay_fired() and no_new_fired()))
+    B = body(packet)
+    mid = B[0] * 256 + B[1]
+    acc = self.state == self.CONNECTED and not has_class(self, 'mqtt.client.publisher.MQTTProtocol')
+    na = as_int(self.transport.tr_aborts)
+    hit = contains(U(self), mid)
+    req = U(self)[mid]
+    ensures(implies(acc and len(B) >= 2, self.transport.tr_aborts == na and out(self) == old(out(self))))
+    ensures(implies(acc and len(B) >= 2 and hit, not contains(U(self), mid) and req.deferred.d_fired and req.deferred.d_ok
+                    and req.deferred.d_val == mid))
+    ensures(implies(acc and len(B) >= 2 and not hit, no_new_fired()))
 
 
 @contract('mqtt.client.base.MQTTBaseProtocol._handlePUBLISH', props=['C16', 'C14', 'C03', 'C06'], classes=PROFILES)
@@ -102,6 +144,22 @@ def _(self: Ref['mqtt.client.pubsubs.MQTTProtocol'], packet: Bytes):
     # no Deferred fired, no state change (a corrupt one may at most abort the connection)
     ensures(implies(not old(self.state == self.CONNECTED and not has_class(self, 'mqtt.client.publisher.MQTTProtocol')), out(self) == old(out(self)) and cb_unchanged() and unchanged(self.state)
                     and fired_stay_fired() and no_new_fired()))
+    B = body(packet)
+    tl = B[0] * 256 + B[1]
+    q = (packet[0] // 2) % 4
+    mid = B[tl + 2] * 256 + B[tl + 3]
+    acc = self.state == self.CONNECTED and not has_class(self, 'mqtt.client.publisher.MQTTProtocol')
+    na = as_int(self.transport.tr_aborts)
+    # unless the packet is corrupt (and the connection aborted instead), a PUBLISH the state accepts is answered and
+    # delivered with exactly the fields its bytes carry
+    ensures(implies(acc and self.transport.tr_aborts == na and q == 0, out(self) == old(out(self))))
+    ensures(implies(acc and self.transport.tr_aborts == na and q == 1, out(self) == old(out(self)) + lb(sPUBACK(mid))))
+    ensures(implies(acc and self.transport.tr_aborts == na and q == 2, out(self) == old(out(self)) + lb(sPUBREC(mid)) and cb_unchanged() and contains(X(self), mid)
+                    and X(self)[mid].qos == 2 and utf8(X(self)[mid].topic) == B[2:2 + tl] and X(self)[mid].payload == B[tl + 4:]))
+    ensures(implies(acc and self.transport.tr_aborts == na and q == 0 and is_func(self.onPublish),
+                    cb_appended(self.onPublish, utf8dec(B[2:2 + tl]), B[tl + 2:], 0, (packet[0] // 8) % 2 == 1, packet[0] % 2 == 1, None)))
+    ensures(implies(acc and self.transport.tr_aborts == na and q == 1 and is_func(self.onPublish),
+                    cb_appended(self.onPublish, utf8dec(B[2:2 + tl]), B[tl + 4:], 1, (packet[0] // 8) % 2 == 1, packet[0] % 2 == 1, mid)))
 
 
 @contract('mqtt.client.base.MQTTBaseProtocol._handlePUBACK', props=['C16', 'C14', 'C03', 'C05'], classes=PROFILES)
@@ -114,6 +172,16 @@ def _(self: Ref['mqtt.client.pubsubs.MQTTProtocol'], packet: Bytes):
     # no Deferred fired, no state change (a corrupt one may at most abort the connection)
     ensures(implies(not old(self.state == self.CONNECTED and not has_class(self, 'mqtt.client.subscriber.MQTTProtocol')), out(self) == old(out(self)) and cb_unchanged() and unchanged(self.state)
                     and fired_stay_fired() and no_new_fired()))
+    # a PUBACK the state accepts takes effect: it is decoded (two identifier bytes suffice) and handled
+    B = body(packet)
+    mid = B[0] * 256 + B[1]
+    acc = self.state == self.CONNECTED and not has_class(self, 'mqtt.client.subscriber.MQTTProtocol')
+    na = as_int(self.transport.tr_aborts)
+    hit = contains(W(self), mid)
+    req = W(self)[mid]
+    ensures(implies(acc and len(B) >= 2, self.transport.tr_aborts == na))
+    ensures(implies(acc and len(B) >= 2 and hit, req.deferred.d_fired and req.deferred.d_ok and req.deferred.d_val == mid))
+    ensures(implies(acc and len(B) >= 2 and not hit, out(self) == old(out(self)) and no_new_fired()))
 
 
 @contract('mqtt.client.base.MQTTBaseProtocol._handlePUBREL', props=['C16', 'C14', 'C03', 'C06'], classes=PROFILES)
@@ -126,6 +194,18 @@ def _(self: Ref['mqtt.client.pubsubs.MQTTProtocol'], packet: Bytes):
     # no Deferred fired, no state change (a corrupt one may at most abort the connection)
     ensures(implies(not old(self.state == self.CONNECTED and not has_class(self, 'mqtt.client.publisher.MQTTProtocol')), out(self) == old(out(self)) and cb_unchanged() and unchanged(self.state)
                     and fired_stay_fired() and no_new_fired()))
+    B = body(packet)
+    mid = B[0] * 256 + B[1]
+    acc = self.state == self.CONNECTED and not has_class(self, 'mqtt.client.publisher.MQTTProtocol')
+    na = as_int(self.transport.tr_aborts)
+    hit = contains(X(self), mid)
+    msg = X(self)[mid]
+    # every PUBREL the state accepts is answered by exactly one PUBCOMP; the held message is delivered then
+    ensures(implies(acc and len(B) >= 2, self.transport.tr_aborts == na and out(self) == old(out(self)) + lb(sPUBCOMP(mid))))
+    ensures(implies(acc and len(B) >= 2 and hit, not contains(X(self), mid)
+                    and (cb_appended(self.onPublish, msg.topic, msg.payload, msg.qos, msg.dup, msg.retain, msg.msgId)
+                         if is_func(self.onPublish) else cb_unchanged())))
+    ensures(implies(acc and len(B) >= 2 and not hit, cb_unchanged()))
 
 
 @contract('mqtt.client.base.MQTTBaseProtocol._handlePUBREC', props=['C16', 'C14', 'C03', 'C05', 'C09'], classes=PROFILES)
@@ -138,6 +218,15 @@ def _(self: Ref['mqtt.client.pubsubs.MQTTProtocol'], packet: Bytes):
     # no Deferred fired, no state change (a corrupt one may at most abort the connection)
     ensures(implies(not old(self.state == self.CONNECTED and not has_class(self, 'mqtt.client.subscriber.MQTTProtocol')), out(self) == old(out(self)) and cb_unchanged() and unchanged(self.state)
                     and fired_stay_fired() and no_new_fired()))
+    B = body(packet)
+    mid = B[0] * 256 + B[1]
+    acc = self.state == self.CONNECTED and not has_class(self, 'mqtt.client.subscriber.MQTTProtocol')
+    na = as_int(self.transport.tr_aborts)
+    hit = contains(W(self), mid)
+    ensures(implies(acc and len(B) >= 2, self.transport.tr_aborts == na and no_new_fired()))
+    ensures(implies(acc and len(B) >= 2 and hit, out(self) == old(out(self)) + lb(sPUBREL(mid))
+                    and not contains(W(self), mid) and contains(R(self), mid)))
+    ensures(implies(acc and len(B) >= 2 and not hit, out(self) == old(out(self))))
 
 
 @contract('mqtt.client.base.MQTTBaseProtocol._handlePUBCOMP', props=['C16', 'C14', 'C03', 'C05', 'C09'], classes=PROFILES)
@@ -150,6 +239,16 @@ def _(self: Ref['mqtt.client.pubsubs.MQTTProtocol'], packet: Bytes):
     # no Deferred fired, no state change (a corrupt one may at most abort the connection)
     ensures(implies(not old(self.state == self.CONNECTED and not has_class(self, 'mqtt.client.subscriber.MQTTProtocol')), out(self) == old(out(self)) and cb_unchanged() and unchanged(self.state)
                     and fired_stay_fired() and no_new_fired()))
+    B = body(packet)
+    mid = B[0] * 256 + B[1]
+    acc = self.state == self.CONNECTED and not has_class(self, 'mqtt.client.subscriber.MQTTProtocol')
+    na = as_int(self.transport.tr_aborts)
+    hit = contains(R(self), mid)
+    rep = R(self)[mid]
+    ensures(implies(acc and len(B) >= 2, self.transport.tr_aborts == na))
+    ensures(implies(acc and len(B) >= 2 and hit, not contains(R(self), mid) and rep.deferred.d_fired and rep.deferred.d_ok
+                    and rep.deferred.d_val == mid))
+    ensures(implies(acc and len(B) >= 2 and not hit, out(self) == old(out(self)) and no_new_fired()))
 
 
 @contract('mqtt.client.base.MQTTBaseProtocol._processPacket', props=['C16', 'C14', 'C03'], classes=PROFILES)
@@ -161,3 +260,40 @@ def _(self: Ref['mqtt.client.pubsubs.MQTTProtocol'], packet: Bytes):
     ghost_set(self.g_dispatched, as_list_bytes(self.g_dispatched) + lb(packet))
     ensures(any_state(self))
     ensures(self.g_dispatched == old(as_list_bytes(self.g_dispatched)) + lb(packet))
+    # routing by the packet-type nibble: each broker packet reaches its decoder and has the decoder's effect ...
+    t = packet[0] // 16
+    B = body(packet)
+    mid = B[0] * 256 + B[1]
+    conn = self.state == self.CONNECTED
+    pub = not has_class(self, 'mqtt.client.subscriber.MQTTProtocol')
+    sub = not has_class(self, 'mqtt.client.publisher.MQTTProtocol')
+    na = as_int(self.transport.tr_aborts)
+    d = as_ref(self.connReq.deferred)
+    reqW = W(self)[mid]
+    repR = R(self)[mid]
+    reqS = S(self)[mid]
+    reqU = U(self)[mid]
+    hitW = contains(W(self), mid)
+    hitR = contains(R(self), mid)
+    hitS = contains(S(self), mid)
+    hitU = contains(U(self), mid)
+    ptl = B[0] * 256 + B[1]
+    pq = (packet[0] // 2) % 4
+    pmid = B[ptl + 2] * 256 + B[ptl + 3]
+    ensures(implies(t == 2 and self.state == self.CONNECTING and len(B) >= 2, d.d_fired and is_none(self.connReq)))
+    ensures(implies(t == 3 and conn and sub and self.transport.tr_aborts == na and pq == 1, out(self) == old(out(self)) + lb(sPUBACK(pmid))))
+    ensures(implies(t == 3 and conn and sub and self.transport.tr_aborts == na and pq == 2, out(self) == old(out(self)) + lb(sPUBREC(pmid))))
+    ensures(implies(t == 3 and conn and sub and self.transport.tr_aborts == na and pq == 0 and is_func(self.onPublish),
+                    cb_appended(self.onPublish, utf8dec(B[2:2 + ptl]), B[ptl + 2:], 0, (packet[0] // 8) % 2 == 1, packet[0] % 2 == 1, None)))
+    ensures(implies(t == 4 and conn and pub and len(B) >= 2 and hitW, reqW.deferred.d_fired and reqW.deferred.d_ok and reqW.deferred.d_val == mid))
+    ensures(implies(t == 5 and conn and pub and len(B) >= 2 and hitW, out(self) == old(out(self)) + lb(sPUBREL(mid)) and contains(R(self), mid)))
+    ensures(implies(t == 6 and conn and sub and len(B) >= 2, out(self) == old(out(self)) + lb(sPUBCOMP(mid))))
+    ensures(implies(t == 7 and conn and pub and len(B) >= 2 and hitR, repR.deferred.d_fired and repR.deferred.d_ok and repR.deferred.d_val == mid))
+    ensures(implies(t == 9 and conn and sub and len(B) >= 2 and hitS, reqS.deferred.d_fired and reqS.deferred.d_ok and not contains(S(self), mid)))
+    ensures(implies(t == 11 and conn and sub and len(B) >= 2 and hitU, reqU.deferred.d_fired and reqU.deferred.d_ok and reqU.deferred.d_val == mid))
+    ensures(implies(t == 13 and conn, is_none(self._pingReq.alarm)))
+    # ... and anything else (reserved types 0 and 15, packets only a client may send) has no application-visible effect
+    # (the code aborts the connection; the property allows that as the strongest reaction and does not demand it)
+    ensures(implies(t == 0 or t == 1 or t == 8 or t == 10 or t == 12 or t == 14 or t == 15,
+                    out(self) == old(out(self)) and cb_unchanged() and unchanged(self.state)
+                    and fired_stay_fired() and no_new_fired()))
